@@ -27,6 +27,9 @@ type Act struct {
 	// Damage: before this invocation the cache file of the project, if there is one, is left as an interrupted
 	// earlier run leaves it: truncated to half, empty, or overwritten with garbage
 	Damage string `json:"damage,omitempty"`
+	// StaleLock: before this invocation a lock file of a dead process lies in the cache directory (if there is one)
+	// and next to the spokfile, under this name: what a killed run of a locking implementation leaves behind
+	StaleLock string `json:"stale_lock,omitempty"`
 	// Fsize (level L3 only): this invocation runs with a file size limit of so many bytes (exec.go FsizeLimit)
 	Fsize int `json:"fsize,omitempty"`
 }
@@ -110,6 +113,9 @@ func (actScen) Gen(r *Rng, cfg GenConfig) any {
 		c.Tree[d] = Pick(r, []string{"decoy\n", "node_modules/\n", "UNRELATED=1\n"})
 		if strings.HasSuffix(d, ".env") {
 			c.Tree[d] = "UNRELATED=1\n"
+			if cfg.Prop == "C19" && r.Chance(1, 4) {
+				c.Tree[d] = Pick(r, []string{"this line is not an assignment\n", "A=1\n=novalue\n", "export\n'unterminated\n"})
+			}
 		}
 		if strings.HasSuffix(d, ".gitignore") && r.Chance(1, 10) {
 			c.Tree[d] = "build/\n# {BIG}\nnode_modules/\ndist/\n" // a very long line in the middle
@@ -165,6 +171,13 @@ func (actScen) Gen(r *Rng, cfg GenConfig) any {
 			c.Actions[at].Args = []string{"--fmt"}
 		case 2:
 			c.Actions[at].Args = []string{"--init"}
+		}
+	}
+	if r.Chance(1, 10) {
+		at := r.Range(1, len(c.Actions)-1)
+		c.Actions[at].StaleLock = Pick(r, []string{"lock", ".lock", "spok.lock", "cache.lock", "LOCK", "cache.json.lock"})
+		if r.Chance(2, 3) {
+			c.Actions[0] = Act{Args: []string{Pick(r, names)}}
 		}
 	}
 	if cfg.Prop == "C19" && r.Chance(1, 8) {
@@ -253,6 +266,12 @@ func (actScen) Exec(w *World, cc any, prop string) *Result {
 			}
 			if d == "" {
 				break
+			}
+		}
+		if a.StaleLock != "" {
+			if st, err := os.Stat(filepath.Join(proj, ".spok")); err == nil && st.IsDir() {
+				writeFile(filepath.Join(proj, ".spok", a.StaleLock), "999999\n")
+				res.count("fault_fired:stale_lock_file_in_cache_directory")
 			}
 		}
 		if a.Damage != "" {
